@@ -661,3 +661,16 @@ Definition st_nocache_full : frec :=
      blocks := [ {| b_off := 4; b_dirty := false; b_ndds := 4 |} ]; cursor := 0%nat; refcount := 1; attach := 0;
      vmod := false; vcalls := 0%nat; file_open := true; writable := true; own_aid := false;
      nb_published := false; nb_freed := false |}.
+
+(* ------------------------------------------------------------------------------------------------------------ *)
+(** * Failure-value conventions (round 3): every caller tests a callee's result for the value the callee returns on
+      failure (FAIL = -1 versus FALSE = 0).  Table regenerated from putget.c, cdf.c, file.c, mfsd.c, hfile.c,
+      hfiledd.c; rows whose result is returned unchanged or tested elsewhere are not decided here. *)
+Definition conv_ok (r : string * string * string * string) : bool :=
+  let '(_, _, kind, test) := r in
+  if String.eqb test "UNTESTED" || String.eqb test "RETURNED" then true
+  else if String.eqb test "NOTSUCCEED" then String.eqb kind "FAIL"
+  else String.eqb kind test.
+
+Lemma conventions_consistent_lemma : forallb conv_ok conventions = true /\ (40 <= List.length conventions)%nat.
+Proof. split; [vm_compute; reflexivity|vm_compute; repeat constructor]. Qed.
